@@ -50,3 +50,42 @@ Definition closed_with_value (o : op) (r : res) : Prop :=
   | SendB _ vs true => r = RMutClosed vs
   | _ => True
   end.
+
+(* ---- C06 vocabulary: pending receive-side waiters and the wake-up invariants ---- *)
+Definition rpend (s : st) (f w c : N) : Prop :=
+  exists fr, aget f (fs s) = Some fr /\ is_recv_kind (fk fr) = true /\ fpend fr = Some (w, c).
+Definition spend (s : st) (h w c : N) : Prop :=
+  exists r, aget h (hs s) = Some r /\ hpend r = Some (w, c).
+Definition reg_of (k : fkind) : bool :=
+  match k with FRecv g | FRecvB _ g => g | _ => false end.
+
+Definition W1 s := forall o w, rw s = Some (o, w) -> q s = [] /\ scount s <> 0.
+Definition W2 s := forall f w c, rpend s f w c ->
+  c <= wk s w /\ (rw s = Some (OF f, w) \/ c < wk s w \/ multi s = true).
+Definition W3 s := forall h w c, spend s h w c ->
+  c <= wk s w /\ (rw s = Some (OH h, w) \/ c < wk s w \/ multi s = true).
+Definition W4 s := multi s = false -> forall f1 f2 fr1 fr2,
+  aget f1 (fs s) = Some fr1 -> aget f2 (fs s) = Some fr2 ->
+  is_recv_kind (fk fr1) = true -> is_recv_kind (fk fr2) = true -> f1 = f2.
+Definition W5 s := multi s = false -> forall f fr h r,
+  aget f (fs s) = Some fr -> is_recv_kind (fk fr) = true -> aget h (hs s) = Some r -> hreg r = false.
+Definition W6 s := forall f w, rw s = Some (OF f, w) ->
+  exists fr, aget f (fs s) = Some fr /\ reg_of (fk fr) = true.
+Definition W7 s := forall h w, rw s = Some (OH h, w) ->
+  exists r, aget h (hs s) = Some r /\ hreg r = true.
+Definition W8 s := forall h r, aget h (hs s) = Some r ->
+  (hpend r <> None -> hreg r = true) /\ (hreg r = true -> htx r = false /\ hasync r = true).
+
+
+(* ---- C06 vocabulary, send side: pending send futures and the async send-waiter queue ---- *)
+(** a live send-side future whose last poll returned Pending with waker w (wake count c then) *)
+Definition psend (s : st) (f w c : N) : Prop :=
+  exists fr, aget f (fs s) = Some fr /\ is_recv_kind (fk fr) = false /\ fpend fr = Some (w, c).
+Definition S1 s := forall f w, In (f, w) (sq s) -> exists c, psend s f w c.
+Definition S2 s := NoDup (map fst (sq s)).
+Definition S3 s := forall f w c, psend s f w c -> c <= wk s w /\ (In (f, w) (sq s) \/ c < wk s w).
+Definition S4 s := rdrop s = true -> sq s = [].
+Definition S5 s := lost s = false -> sq s <> [] ->
+  q s <> [] \/ 0 < unpub s \/ (exists g w c, psend s g w c /\ in_sq g s = false).
+
+Definition SI (s : st) : Prop := S1 s /\ S2 s /\ S3 s /\ S4 s /\ S5 s.
